@@ -18,3 +18,4 @@ CFG = dict(
                 "legal; Close is only issued while a subscriber is stalled when that subscriber is about to leave.",
      assumptions=["testing/synctest and runtime.Stack(all) snapshots are correct", "constant interval, so due order equals Batch-call order"],
      timeout_quick=600, timeout_thorough=3000)
+CFG["rule"] += " Added after independently written breaking changes: Also Subscribe calls with several channels (one shared context) and an injected fake clock (WithClock) a year away from the bubble's time."
